@@ -147,6 +147,12 @@ fn main() {
         }
         "replay-child" => {
             let id = args[2].clone();
+            // same watchdog as the workers: a case that does not return is inconclusive, not a verdict
+            std::thread::spawn(|| {
+                std::thread::sleep(std::time::Duration::from_secs(runner::WATCHDOG_SECS));
+                println!("INCONCLUSIVE the case did not return within {} s (slowness and non-termination cannot be told apart by testing)", runner::WATCHDOG_SECS);
+                std::process::exit(2);
+            });
             let bytes = std::fs::read(&args[3]).unwrap_or_else(|e| {
                 eprintln!("cannot read {}: {}", args[3], e);
                 std::process::exit(2)
